@@ -77,3 +77,9 @@ pub(crate) fn holds(store: &Store, key: &[String], e: &E) -> bool {
 pub(crate) fn cid(n: u128) -> ClientId {
     ClientId::from_u128(n)
 }
+
+/// Stub for `std::fmt::format` (error texts are not the subject of any property; formatting machinery
+/// is the single most expensive thing for the engine). Listed in the evidence as a stub.
+pub(crate) fn stub_format(_args: core::fmt::Arguments<'_>) -> String {
+    String::new()
+}
